@@ -270,20 +270,71 @@ Section CmacSource.
     first [rewrite exec_S at 1 | rewrite exec_nil at 1 | rewrite after_call_normal | rewrite after_call_return | rewrite after_call_raise];
     cbv -[xc after_call state_in env_of result_of update digest Z.eqb Z.ltb Z.leb Z.add Z.sub Z.mul Z.pow Z.modulo Z.div Z.lxor Z.land Z.lor Z.shiftl Z.shiftr Z.opp
           Z.min Z.max Z.to_nat Z.of_nat len xor_zip py_slice py_splice rev app zeros be_int to_be nth hd
-          ecb cbc_encrypt shift_bytes key_k1 key_k2 max_size fst snd repeat_bytes];
+          ecb cbc_encrypt shift_bytes key_k1 key_k2 max_size fst snd repeat_bytes optv];
     cbn [fst snd];
     fold_consts.
   Ltac no_if := lazymatch goal with |- context [if _ then _ else _] => fail | _ => idtac end.
   Ltac run_sym := repeat (no_if; sstep).
 
-  Goal forall cache n lct lp ds cbcl msg,
-    state_in (env_of (run 80 (cmac_env (mk_cmac cache n lct (Some lp) ds cbcl)) src_cmac_update_params src_cmac_update
-                          [VStr "cmac"; VBytes msg]))
-             (update E (mk_cmac cache n lct (Some lp) ds cbcl) msg).
+  (* lengths of Python slices / slice assignments, for the arithmetic side conditions *)
+  Lemma len_firstn : forall k (l : list Z), len (firstn k l) = Z.min (Z.of_nat k) (len l).
+  Proof. intros. unfold len. rewrite firstn_length. lia. Qed.
+  Lemma len_skipn : forall k (l : list Z), len (skipn k l) = Z.max 0 (len l - Z.of_nat k).
+  Proof. intros. unfold len. rewrite skipn_length. lia. Qed.
+
+  Lemma len_py_slice_pos : forall l a b, 0 <= a -> a <= b ->
+    len (py_slice l a b) = Z.min b (len l) - Z.min a (len l).
   Proof.
-    intros. unfold cmac_env, run, call. change (exec prim_cm no_attr no_op meth_cm) with xc. cbn [c_cache c_cache_n c_last_ct c_last_pt c_data_size c_cbc_last optv].
+    intros l a b Ha Hb. unfold py_slice, norm_index. pose proof (len_nonneg l).
+    destruct (a <? 0) eqn:E1; [lia|]. destruct (b <? 0) eqn:E2; [lia|].
+    rewrite len_firstn, len_skipn. lia.
+  Qed.
+
+  Lemma len_py_slice_neg : forall l r, 0 < r ->
+    len (py_slice l 0 (- r)) = Z.max 0 (len l - r).
+  Proof.
+    intros l r Hr. unfold py_slice, norm_index. pose proof (len_nonneg l).
+    change (0 <? 0) with false. cbv iota. destruct (- r <? 0) eqn:E9; [|lia].
+    rewrite len_firstn, len_skipn. lia.
+  Qed.
+
+  Lemma len_py_splice : forall b l h v, 0 <= l ->
+    len (py_splice b l h v) = Z.min l (len b) + len v + Z.max 0 (len b - Z.max l h).
+  Proof.
+    intros b l h v Hl. unfold py_splice. rewrite !len_app, len_firstn, len_skipn. lia.
+  Qed.
+
+  Ltac lens H := repeat first [ rewrite len_py_splice in H by lia | rewrite len_py_slice_pos in H by lia
+                              | rewrite len_py_slice_neg in H by lia ].
+  Ltac lens_goal := repeat first [ rewrite len_py_splice by lia | rewrite len_py_slice_pos by lia
+                                 | rewrite len_py_slice_neg by lia ].
+
+  (* split on a stuck condition; a branch whose condition contradicts the invariants is closed at once *)
+  Ltac split_cond :=
+    match goal with
+    | |- context [if ?c then _ else _] =>
+        let H := fresh "Hc" in
+        destruct c eqn:H;
+        try (exfalso; lens H; pose proof len_nonneg; lia)
+    end.
+  Ltac go := repeat (run_sym; try split_cond).
+
+  Theorem cmac_update_matches_source : forall s msg,
+    len (c_cache s) = 16 -> 0 <= c_cache_n s < 16 ->
+    state_in (env_of (run 80 (cmac_env s) src_cmac_update_params src_cmac_update [VStr "cmac"; VBytes msg]))
+             (update E s msg).
+  Proof.
+    intros [cache n lct lpt ds cbcl] msg Hcl Hn.
+    cbn [c_cache c_cache_n] in Hcl, Hn.
+    pose proof (len_nonneg msg) as Hm.
+    unfold cmac_env, run, call. change (exec prim_cm no_attr no_op meth_cm) with xc.
+    cbn [c_cache c_cache_n c_last_ct c_last_pt c_data_size c_cbc_last].
     cbv [bind src_cmac_update_params set_var String.eqb Ascii.eqb Bool.eqb]. unfold src_cmac_update.
-    Time (repeat (run_sym; try (match goal with |- context [if ?c then _ else _] => destruct c eqn:? end))).
-    all: try (lazymatch goal with |- context [xc] => idtac | _ => fail end; match goal with |- ?G => idtac "STUCKGOAL" G end).
-  Abort.
+    Time go.
+    all: unfold update, update_tail, update_aligned, set_cache, cbc_encrypt, py_from, py_upto;
+         cbn [c_cache c_cache_n c_last_ct c_last_pt c_data_size c_cbc_last];
+         repeat match goal with H : _ = true |- _ => rewrite H; clear H | H : _ = false |- _ => rewrite H; clear H end.
+    all: try (repeat (match goal with |- context [cbc_blocks E ?l ?b] => destruct (cbc_blocks E l b) end; cbn [fst snd]);
+              unfold state_in; repeat split; reflexivity).
+  Qed.
 End CmacSource.
